@@ -47,6 +47,15 @@ if earlier:
                   'cloned, translated, resized or re-styled before use), or an object obtained through a less common route (a primitive converted from another, '
                   'a style derived from another, a sub-image of a framebuffer image, a polyline over a slice with an offset, a rectangle from with_corners/with_center). '
                   'Keep the change realistic: it should read like a plausible refactoring or optimisation.')
+    if rnd >= 8:
+        extra += (' ADDITIONALLY for this round, three directions that earlier rounds have used little: (1) a draw target is free to consume whatever the library hands it in any '
+                  'legal way - any `Iterator` method (`fold`, `for_each`, `nth`, `skip`, `step_by`, `size_hint`, `count`, `last`, `by_ref` and partial consumption) on the pixel and colour iterators, '
+                  'any bounding box (not at the origin, empty, huge, negative), one of the library adapters or a `Framebuffer`/`MockDisplay` as the target - and user code may call any public '
+                  'method in any order and reuse objects; look for library code that silently assumes one particular way. (2) Shared low-level helpers, especially in the `core` crate '
+                  '(`Point`/`Size` arithmetic, conversions and component helpers, `Rectangle` helpers, `AnchorPoint`, `Angle`/trigonometry, `Real`, `PointsIter`), whose subtle misbehaviour '
+                  'surfaces only through the API of this property for particular values. (3) Behaviour for values at the edge of the documented domain of this property '
+                  '(the largest sizes/widths/indices the statement mentions, zero, one, exactly-equal operands, exact multiples). '
+                  'As before: no artificial magic constants; small, plausible diffs.')
 
 text = f"""You are helping to evaluate a verification effort by producing a realistic, subtle bug ("seeded change") in a Rust library. Work ONLY inside the git worktree at {wt} (a checkout of the embedded-graphics repository: a no_std 2D graphics library; workspace = root crate `embedded-graphics` in ./src plus `embedded-graphics-core` in ./core). Do not read or touch /repo or /verif. The machine is offline: use `cargo ... --offline` only; nothing can be downloaded.
 
